@@ -314,6 +314,80 @@ def formatSymbolic (allowed : Nat) : List Char :=
 
 def dropNl (l : List Char) : List Char := if l.getLast? = some '\n' then l.dropLast else l
 
+/-! ### evaluating a listed line (what a fresh shell makes of it) -/
+
+/-- `Lexer::token_id`: a word whose units are all unquoted literals and spell a reserved word -/
+def isKeywordToken (w : List WUnit) : Bool :=
+  w.all (fun u => match u with | .lit _ => true | _ => false)
+    && Generated.QuoteTables.keywords.contains (removeQuotes w)
+
+/-- `Parser::array_values` on the text `(` … `)` of an array assignment: the words between the parentheses;
+    every `Token(_)` is pushed — a reserved word too, if the arm is `Token(_keyword)`. -/
+def readArrayValues (s : List Char) : Option (List (List Char)) :=
+  match s with
+  | '(' :: r =>
+    if r.getLast? = some ')' then
+      (lex (.word []) r.dropLast).bind fun ws =>
+        ws.mapM fun w =>
+          if isKeywordToken w && !Generated.QuoteTables.arrayAcceptsKeywords then none else fieldOf w
+    else none
+  | _ => none
+
+/-- `name=value` split at the first `=` (typeset / alias operands) -/
+def splitEq : List Char → Option (List Char × List Char)
+  | [] => none
+  | c :: r => if c = '=' then some ([], r) else (splitEq r).map fun p => (c :: p.1, p.2)
+
+/-- Option parsing of `typeset` / `export` / `readonly` as far as listings need it
+    (yash-builtin/src/common/syntax.rs `parse_arguments`): words `-xyz` before the first operand are option
+    groups, `--` ends the options, a word `+x…` would be taken for an option too (not produced: `none`),
+    `-` and `+` alone and everything else start the operands. Returns (option letters, operands). -/
+def parseDeclArgs : List (List Char) → List Char → Option (List Char × List (List Char))
+  | [], o => some (o, [])
+  | w :: ws, o =>
+    if w = ['-', '-'] then some (o, ws)
+    else match w with
+      | '-' :: c :: cs => parseDeclArgs ws (o ++ c :: cs)
+      | '+' :: _ :: _ => none
+      | _ => some (o, w :: ws)
+
+def stripPrefix : List Char → List Char → Option (List Char)
+  | [], l => some l
+  | _ :: _, [] => none
+  | p :: ps, c :: cs => if p = c then stripPrefix ps cs else none
+
+/-- What evaluating one line `typeset …` / `export …` / `readonly …` defines: the variable it (re)creates. -/
+def evalDeclLine (builtin : String) (line : List Char) : Option Var :=
+  (stripPrefix (builtin.toList ++ [' ']) (dropNl line)).bind fun rest =>
+  (readBackDecl rest).bind fun fields =>
+  (parseDeclArgs fields []).bind fun po =>
+    if !(po.1.all fun c => c = 'r' || c = 'x') then none
+    else match po.2 with
+      | [w] =>
+        let nv : List Char × VarVal := match splitEq w with
+          | some (n, v) => (n, .scalar v)
+          | none => (w, .none)
+        some { name := nv.1, value := nv.2,
+               exported := po.1.contains 'x' || builtin = "export",
+               readonly := po.1.contains 'r' || builtin = "readonly" }
+      | _ => none
+
+/-- What evaluating `alias -- <entry>` defines. -/
+def evalAliasEntry (entry : List Char) : Option (List Char × List Char) :=
+  (readBack ("alias -- ".toList ++ dropNl entry)).bind fun fields =>
+    match fields with
+    | [a, d, w] => if a = "alias".toList && d = "--".toList then splitEq w else none
+    | _ => none
+
+/-- What evaluating a line `trap -- <action> <COND>` sets: (condition, action). -/
+def evalTrapLine (line : List Char) : Option (String × List Char) :=
+  (readBack (dropNl line)).bind fun fields =>
+    match fields with
+    | [t, d, action, cond] =>
+      if t = "trap".toList && d = "--".toList then some (String.ofList cond, action) else none
+    | _ => none
+
+
 /-- words of the option part, e.g. `"-r -x -- "` ↦ `["-r", "-x", "--"]` -/
 def optWords (v : Var) (opts : Var → List Char) : List (List Char) :=
   (((String.ofList (opts v ++ sepOf v.name)).splitOn " ").filter (· ≠ "")).map String.toList
@@ -336,22 +410,26 @@ def varEntryOk (builtin : String) (opts : Var → List Char) (significant : Bool
     match v.value with
     | .scalar s =>
       readBackDecl (args (dropNl (printVar builtin opts significant v))) == some (pre ++ [v.name ++ ['='] ++ s])
+        && (evalDeclLine builtin (printVar builtin opts significant v)).map (fun w => (w.name, w.value))
+            == some (v.name, .scalar s)
     | .array vs =>
-      readBack (joinSp (vs.map quote)) == some vs
+      readArrayValues (quoteArray vs) == some vs
         && readBack (quote v.name) == some [v.name]
         && (!(!(opts v).isEmpty || significant) || attrLine)
     | .none => attrLine
 
 def aliasEntryOk (a : List Char × List Char) : Bool :=
+  evalAliasEntry (printAlias a) == some a &&
   readBack ("alias -- ".toList ++ dropNl (printAlias a)) == some ["alias".toList, "--".toList, a.1 ++ ['='] ++ a.2]
 
 def trapEntryOk (t : String × List Char) : Bool :=
+  evalTrapLine (printTrap t) == some t &&
   readBack (dropNl (printTrap t)) == some ["trap".toList, "--".toList, t.2, t.1.toList]
 
 def setEntryOk (v : Var) : Bool :=
   match v.value with
   | .scalar s => readBack (dropNl (printSet v)) == some [v.name ++ ['='] ++ s] && readBack (quote s) == some [s]
-  | .array vs => readBack (joinSp (vs.map quote)) == some vs
+  | .array vs => readArrayValues (quoteArray vs) == some vs
   | .none => true
 
 def fnEntryOk (name : List Char) : Bool :=
